@@ -109,7 +109,7 @@ def run_sched(prop, tier, seed, ctx):
         return p.stdout.strip()
     with ThreadPoolExecutor(max_workers=16) as ex:
         reals = list(ex.map(real, scen))
-    model_in = "\n".join(s[0] for s in scen if not s[0].startswith("takemerge")) + "\n"
+    model_in = "\n".join(s[0] for s in scen) + "\n"
     pm = subprocess.run([ctx["CBDRV"], "par"], input=model_in, capture_output=True, text=True, timeout=3500)
     model = {}
     for l in pm.stdout.splitlines():
